@@ -16,7 +16,7 @@ RULE = ('operation sequences over {start, stop, send(single), send(multi), recv,
         'number of live threads created by the layer, and - whenever the layer is not started - transmitting()/available()/is_rx_active(); '
         'compared call by call with the extracted Coq lifecycle model (Model/Threaded.v). Oracles independent of the model: only RuntimeError '
         '(second start, process/reset while started) is ever raised; stop() returns within 2.2 s, leaves no thread of the layer alive, the layer '
-        'idle with empty queues; then stop/start again and a 1-frame and a multi-frame payload reach a started peer intact. '
+        'idle with empty queues; a layer that is started at the end of the sequence delivers a Single Frame put on its bus; then stop/start again and a 1-frame and a multi-frame payload reach a started peer intact. '
         'Campaign "midtransfer": stop() at a random instant of a paced multi-frame transfer in either direction. Campaign "inflight": a feeder '
         'thread keeps delivering frames while stop() runs; after the next start() nothing received before the stop may be delivered, answered or '
         'reported. Campaign "slowread": read_timeout 1.15-1.45 s with a reader that blocks for the whole timeout; stop() must still outwait it.')
@@ -214,6 +214,12 @@ def run_sequence(part, m, kind, seq, campaign, final_transfer=True):
                         rig.started(), l.transmitting(), l.available(), l.is_rx_active())))
             if op == 'start' and r == 'ok' and rig.threads() != 2:
                 fails.append(('C14:thread-count', '%d threads after start()' % rig.threads()))
+        if final_transfer and not fails and rig.started():
+            # a started layer hears the bus, whatever calls were made - or refused - since it was started
+            rig.inject(bytes([3, 0xA1, 0xA2, 0xA3]))
+            got = rig.layer.recv(block=True, timeout=2.0)
+            if got != bytes([0xA1, 0xA2, 0xA3]):
+                fails.append(('C14:started-layer-deaf', 'a Single Frame put on the bus of the started layer was not delivered within 2 s (got %r)' % (got,)))
         if final_transfer and not fails:
             # a stopped layer can be started again and then transfers payloads normally
             r1 = rig.call('stop')
